@@ -103,4 +103,26 @@ theorem C04_alone (c : Cls) (hc : ClsOK c) (T : Table) (hu : namesUniqueB c T = 
   rw [← hs] at hown
   exact parse_alone c hc T spelling _ (by rw [hs]; exact hw) hown
 
+/-- … and validates without errors, non-strictly always and strictly unless it is an exception (a bare
+    exception is refused by strict validation by design: C12). -/
+theorem C04_alone_validates (c : Cls) (hc : ClsOK c) (T : Table) (hu : namesUniqueB c T = true) (e : Entry) (he : e ∈ T)
+    (n : Str) (hn : (n, symVal e) ∈ entryAdds c e) (hw : wordsOf c n ≠ []) (spelling : Str)
+    (hs : wordsOf c spelling = wordsOf c n) (strict : Bool) (hstrict : strict = true → e.exc = false) :
+    validateFull c T strict spelling = .info ⟨some e.key, 0, []⟩ := by
+  have hmem : (n, symVal e) ∈ addsOf c T := by
+    unfold addsOf
+    exact List.mem_append_right _ (List.mem_flatMap.mpr ⟨e, he, hn⟩)
+  have hown : OwnedBy c T (wordsOf c n) ⟨e.key, e.exc⟩ := by
+    apply ownedW_spec
+    unfold namesUniqueB at hu
+    simp only [List.all_eq_true, Bool.or_eq_true] at hu
+    have := hu (wordsOf c n, symVal e) (by simp only [storedW, List.mem_map]; exact ⟨_, hmem, rfl⟩)
+    rcases this with h | h
+    · exact absurd (by simpa using h) hw
+    · simpa [symVal] using h
+  rw [← hs] at hown
+  exact validate_alone c hc T spelling ⟨e.key, e.exc⟩ strict hstrict
+    (by simp only [knownKeys, List.contains_eq_mem, List.mem_map, decide_eq_true_eq]; exact ⟨e, he, rfl⟩)
+    (by rw [hs]; exact hw) hown
+
 end LE
